@@ -4,7 +4,10 @@ RULE = ("the real connectivityStateManager and ClientConn.WaitForStateChange / W
         "synchronisation steps with the changes are forced by turn-based gate scripts (quick: 14 sampled per scenario; thorough: all), the lock "
         "passages actually taken are replayed through Notify (every step must be enabled) and the outcome true/false/parked must agree; a parked "
         "waiter must return false when its context ends; independently: parked while the state differs from the source state = lost wake-up; "
-        "the server's peer-set channel for random sequences of register/remove/get around a change")
+        "the server's peer-set channel for random sequences of register/remove/get around a change; end to end over real sockets (raw peer closing "
+        "its socket, raw peer sending a close frame, library client Close): the channel obtained before a peer connects, before it goes away by "
+        "itself and before its key is revoked must be closed within 3 s of the change being visible in OpenConnections; the channel handed out "
+        "after Stop must be closed (whether Stop closes a channel obtained before it is recorded, not judged)")
 ASSUMPTIONS = ["'parked' is decided by the waiter not returning within 25 ms after all other threads have finished"]
 FILES = ["root/fake_test.go", "root/c16_test.go", "root/c07_test.go", "root/peers_test.go", "root/c18_test.go", "root/c13_test.go"]
 RW = {"server.go": [(r"\btransport\.NewServerTransport\(", "vNewServerTransport(")],
